@@ -17,7 +17,8 @@ Fingerprints (a fingerprint names the class of failing input, see DESIGN.md sect
   C20:cwd-dependent                same absolute context, different working directory, different result
   C20:cwd-dependent:readFile       ... and the tree calls readFile("note.txt")           (finding F14)
   C20:relative-root-rejected       in-memory cache whose root is not the canonical absolute spelling (relative, trailing
-                                   slash, empty) + foreach => "file caches have different root directory"   (finding F15)
+                                   slash, empty) + foreach => "file caches have different root directory"   (finding F15,
+                                   fixed in 5d35fc8: kept as a regression detector)
   C20:memory-cache-needs-disk      every file is in the in-memory cache, yet Parse fails reading a sub-workflow from disk
   C20:nesting-dependent            the direct result differs from what the tree denotes (oracle), i.e. depends on depth/sharing
   C20:context-spelling-dependent   context API: relative / "." / unclean spelling of the same directory gives another result
@@ -73,17 +74,20 @@ def expected_flag(case, output_id):
     return output_id == "error"
 
 
-def py_merge(caches):
+def py_merge(caches, abs_of=None):
     """contract of loadfile.MergeFileCaches: nil skipped, last writer wins per key, root = last root, error when a
-    non-empty accumulated root differs from the next cache's root"""
+    non-empty accumulated root does not denote the same directory as the next cache's root (same spelling or same
+    filepath.Abs, as recorded by the harness in `abs`)"""
+    abs_of = abs_of or {}
     files, root = {}, ""
     for c in caches:
         if c.get("nil"):
             continue
         files.update(c.get("files") or {})
-        if root != "" and root != c.get("root"):
+        nxt = c.get("root")
+        if root != "" and root != nxt and abs_of.get(root, root) != abs_of.get(nxt, nxt):
             return {"err": "rootMismatch"}
-        root = c.get("root")
+        root = nxt
     return {"root": root, "files": files}
 
 
@@ -193,7 +197,7 @@ def mon_c20_engineapi(case, verdict, chk):
                           {"kind": "impl-counterexample", "case": _slim(case)})
     # -- MergeFileCaches against its contract ------------------------------------------------------------------------------------
     for p in case.get("merge") or []:
-        want = py_merge(p.get("caches") or [])
+        want = py_merge(p.get("caches") or [], p.get("abs"))
         got = p.get("result") or {}
         bump("merge:%s" % ("err" if "err" in got else "ok"))
         if ("err" in want) != ("err" in got) or ("err" not in want and (want["root"] != got.get("root") or want["files"] != got.get("files"))):
@@ -231,11 +235,12 @@ SPEC = {
         T + "engine_equals_direct", T + "engine_equals_direct_partial", T + "unsupported_version_rejected", T + "caller_copy_wins",
         T + "cwd_independent",
         T + "merge_last_wins", T + "merge_order_independent_partial", T + "merge_order_dependent_without_agreement",
-        T + "loaded_caches_agree", T + "merge_root_mismatch_rejected", T + "merge_same_root_ok", T + "merge_empty_root_order_dependent",
-        T + "relative_root_rejected", T + "canonical_root_accepted_partial", T + "f15_witness",
+        T + "loaded_caches_agree", T + "merge_root_mismatch_rejected", T + "merge_empty_root_bridges_directories",
+        T + "merge_same_directory_ok", T + "merge_same_root_ok", T + "merge_empty_root_order_dependent",
+        T + "relative_root_accepted", T + "any_root_accepted",
         T + "exit_code_map",
         T + "default_file_name_pinned", T + "supported_versions_pinned", T + "inferred_error_flag_pinned",
-        T + "cwd_call_sites_pinned", T + "exit_codes_pinned", T + "engineapi_extractor_complete",
+        T + "cwd_call_sites_pinned", T + "same_directory_pinned", T + "exit_codes_pinned", T + "engineapi_extractor_complete",
     ],
     "pins": PIN,
     "streams": [
